@@ -9,7 +9,7 @@
 From Coq Require Import Init.Byte ZArith List Bool.
 Require Import Ojg.Base.Bytes Ojg.Base.Jv Ojg.Json.Number Ojg.Json.NumberFacts.
 Require Import Ojg.Json.Machine Ojg.Json.Ref Ojg.Json.RefParse Ojg.Json.Sweep Ojg.Json.DataInv Ojg.Json.Frontends.
-Require Import Ojg.Json.Sweep_parser Ojg.Json.Sweep_gen Ojg.Json.DSweeps Ojg.Json.ValueSim Ojg.Json.ValueSimSweeps Ojg.Json.IntLit Ojg.Json.Fmt Ojg.Json.Dec Ojg.Json.Expo.
+Require Import Ojg.Json.Sweep_parser Ojg.Json.Sweep_gen Ojg.Json.DSweeps Ojg.Json.ValueSim Ojg.Json.ValueSimSweeps Ojg.Json.IntLit Ojg.Json.Fmt Ojg.Json.Dec Ojg.Json.Expo Ojg.Json.Literals.
 Import ListNotations.
 Open Scope Z_scope.
 
@@ -72,24 +72,19 @@ Print Assumptions C02_documents_parser.
 Print Assumptions C02_documents_gen_multi.
 
 
-(* the number leaf of any front-end kind is AsNum / AsNode of the builder state (the two coincide
-   on what they return for the modelled conversions) *)
-Lemma tr_big_any : forall K t, tr K (JBig t) = as_num (num_of t).
-Proof. intros K t. simpl. unfold num_value. destruct (k_kind K); reflexivity. Qed.
-
 (* integer literals, through the machine's own path (scan-ahead loop of the first buffer for
    non-negative literals, digit-at-a-time for negative ones): the leaf that C02_documents assigns
    to a plain integer literal is that integer *)
 Theorem C02_int_literal_plain : forall K d1 ds,
   is_19 d1 = true -> all_digits ds -> digits_val (d1 :: ds) < 9223372036854775800 ->
   tr K (JBig (d1 :: ds)) = JInt (digits_val (d1 :: ds)).
-Proof. intro K; intros; rewrite tr_big_any; apply int_literal_plain; assumption. Qed.
+Proof. exact leaf_int_literal_plain. Qed.
 Theorem C02_int_literal_zero : forall K, tr K (JBig [x30]) = JInt 0.
-Proof. intro K. rewrite tr_big_any. exact int_literal_zero. Qed.
+Proof. exact leaf_int_literal_zero. Qed.
 Theorem C02_int_literal_neg : forall K d1 ds,
   is_19 d1 = true -> all_digits ds -> digits_val (d1 :: ds) <= max_int64 ->
   tr K (JBig (x2d :: d1 :: ds)) = JInt (- digits_val (d1 :: ds)).
-Proof. intro K; intros; rewrite tr_big_any; apply int_literal_neg; assumption. Qed.
+Proof. exact leaf_int_literal_neg. Qed.
 Print Assumptions C02_int_literal_plain.
 Print Assumptions C02_int_literal_neg.
 
@@ -99,14 +94,14 @@ Print Assumptions C02_int_literal_neg.
 Theorem C02_dec_literal_plain : forall K d1 ds fr,
   is_19 d1 = true -> all_digits ds -> digits_val (d1 :: ds) < 9223372036854775800 -> frac_ok fr ->
   tr K (JBig ((d1 :: ds) ++ x2e :: fr)) = JFloat ((d1 :: ds) ++ x2e :: fr).
-Proof. intro K; intros; rewrite tr_big_any; apply dec_literal_plain; assumption. Qed.
+Proof. exact leaf_dec_literal_plain. Qed.
 Theorem C02_dec_literal_zero : forall K fr, frac_ok fr ->
   tr K (JBig (x30 :: x2e :: fr)) = JFloat (x30 :: x2e :: fr).
-Proof. intro K; intros; rewrite tr_big_any; apply dec_literal_zero; assumption. Qed.
+Proof. exact leaf_dec_literal_zero. Qed.
 Theorem C02_dec_literal_neg : forall K d1 ds fr,
   is_19 d1 = true -> all_digits ds -> digits_val (d1 :: ds) <= max_int64 -> frac_ok fr ->
   tr K (JBig (x2d :: (d1 :: ds) ++ x2e :: fr)) = JFloat (x2d :: (d1 :: ds) ++ x2e :: fr).
-Proof. intro K; intros; rewrite tr_big_any; apply dec_literal_neg; assumption. Qed.
+Proof. exact leaf_dec_literal_neg. Qed.
 Print Assumptions C02_dec_literal_plain.
 Print Assumptions C02_dec_literal_neg.
 
@@ -119,13 +114,13 @@ Theorem C02_exp_literal_int : forall K d1 ds e sg es,
   is_eb e -> sign_ok sg -> all_digits es -> 0 < digits_val es <= 1022 ->
   tr K (JBig ((d1 :: ds) ++ e :: sg ++ es)) =
   JFloat ((d1 :: ds) ++ x65 :: (if sign_neg sg then [x2d] else []) ++ format_uint (digits_val es)).
-Proof. intro K; intros; rewrite tr_big_any; apply exp_literal_int; assumption. Qed.
+Proof. exact leaf_exp_literal_int. Qed.
 Theorem C02_exp_literal_dec : forall K d1 ds fr e sg es,
   is_19 d1 = true -> all_digits ds -> digits_val (d1 :: ds) < 9223372036854775800 -> frac_ok fr ->
   is_eb e -> sign_ok sg -> all_digits es -> 0 < digits_val es <= 1022 ->
   tr K (JBig (((d1 :: ds) ++ x2e :: fr) ++ e :: sg ++ es)) =
   JFloat (((d1 :: ds) ++ x2e :: fr) ++ x65 :: (if sign_neg sg then [x2d] else []) ++ format_uint (digits_val es)).
-Proof. intro K; intros; rewrite tr_big_any; apply exp_literal_dec; assumption. Qed.
+Proof. exact leaf_exp_literal_dec. Qed.
 Example C02_exp_literal_example :
   tr fe_gen (JBig [x31; x32; x2e; x35; x45; x2b; x30; x37]) = JFloat [x31; x32; x2e; x35; x65; x37].
 Proof. vm_compute. reflexivity. Qed.
